@@ -17,7 +17,7 @@ func init() {
 	register(&Prop{
 		ID:         "C06",
 		Title:      "Condition, filter and key expressions evaluate per DynamoDB semantics",
-		Decided:    "the clauses that are visible in the shape of the code: (R1) the precedence table orders OR < AND < NOT < every comparator, NOT's operand and every infix operator's right operand are parsed at the operator's own level (left-associative), and the set of tokens with an infix handler equals the set with a precedence; (R2) in each comparator function (a switch over the operator string with the six comparator labels) the case for label c returns left ⊙ right with the Go operator that c denotes, operands in (left,right) order; (R3) BETWEEN is min <= v AND v <= max for each comparable type; (R4) exhaustiveness: Eval has a case for every node kind the condition parser can build, every registered infix token is handled, the function registry is exactly the six condition and two update functions with the right ForUpdate flags, the type-name table has the ten types and the comparable types are N, S, B; (R5) existence of an attribute is decided with the undefined test, never with the NULL type tag (a NULL-typed attribute exists); (R6) evaluating a condition reaches no object or environment mutator and never writes the caller's item; (R7) with a missing operand '=' is false and '<>' is true; (R8) two evaluator objects are compared by pointer identity only against the process-wide singletons (TRUE, FALSE, UNDEFINED) or when both are known booleans – an identity shortcut elsewhere makes two different missing operands equal and two equal numbers different; (R9) in the evaluators of IN and BETWEEN every use of the left operand's value in a comparison, equality or containment call is dominated by the not-undefined side of the undefined test of that value: a missing attribute makes the condition false, it never equals another missing attribute; (R10) the environment is filled with the stored item first and the request's expression attribute values second, in both interpreters' entry points: a stored attribute that happens to be named like a placeholder (\":owner\") cannot replace the value the request supplied; (R11) attribute_type, = and <> see the type an operand was written with only if the adapter keeps it: every member case of the SDK v2 → internal conversion applies to every value of that member and sets the member's own type field (= C10.R7b); (R12) the expression parsed before a binary operator is stored as the node's Left and the one parsed after it as Right, and the comparator functions receive Eval(node.Left) as their left and Eval(node.Right) as their right parameter (through helpers, operand records and dispatching methods); (R13) begins_with(a, b) is decided by HasPrefix(a, b) – or len(a) >= len(b) && a[:len(b)] == b – and contains on S/B by Contains(a, b), operands in that order; (R14) empty containers keep their type on the way into the evaluator (= C10.R11).",
+		Decided:    "the clauses that are visible in the shape of the code: (R1) the precedence table orders OR < AND < NOT < every comparator, NOT's operand and every infix operator's right operand are parsed at the operator's own level (left-associative), and the set of tokens with an infix handler equals the set with a precedence; (R2) in each comparator function (a switch over the operator string with the six comparator labels) the case for label c returns left ⊙ right with the Go operator that c denotes, operands in (left,right) order; (R3) BETWEEN is min <= v AND v <= max for each comparable type; (R4) exhaustiveness: Eval has a case for every node kind the condition parser can build, every registered infix token is handled, the function registry is exactly the six condition and two update functions with the right ForUpdate flags, the type-name table has the ten types and the comparable types are N, S, B; (R5) existence of an attribute is decided with the undefined test, never with the NULL type tag (a NULL-typed attribute exists); (R6) evaluating a condition reaches no object or environment mutator and never writes the caller's item; (R7) with a missing operand '=' is false and '<>' is true; (R8) two evaluator objects are compared by pointer identity only against the process-wide singletons (TRUE, FALSE, UNDEFINED) or when both are known booleans – an identity shortcut elsewhere makes two different missing operands equal and two equal numbers different; (R9) in the evaluators of IN and BETWEEN every use of the left operand's value in a comparison, equality or containment call is dominated by the not-undefined side of the undefined test of that value: a missing attribute makes the condition false, it never equals another missing attribute; (R10) the environment is filled with the stored item first and the request's expression attribute values second, in both interpreters' entry points: a stored attribute that happens to be named like a placeholder (\":owner\") cannot replace the value the request supplied; (R11) attribute_type, = and <> see the type an operand was written with only if the adapter keeps it: every member case of the SDK v2 → internal conversion applies to every value of that member and sets the member's own type field (= C10.R7b); (R12) the expression parsed before a binary operator is stored as the node's Left and the one parsed after it as Right, and the comparator functions receive Eval(node.Left) as their left and Eval(node.Right) as their right parameter (through helpers, operand records and dispatching methods); (R13) begins_with(a, b) is decided by HasPrefix(a, b) – or len(a) >= len(b) && a[:len(b)] == b – and contains on S/B by Contains(a, b), operands in that order; (R14) empty containers keep their type on the way into the evaluator (= C10.R11); (R15) the value objects have no field beyond their value: equality, IN and contains compare values, not how a value was written; (R16) the structural equality function answers only through symmetric constructs; (R17) the literal store lookup in the environment's read accessor is unconditional.",
 		NotDecided: "the truth value of an arbitrary expression on an arbitrary item: structural equality of documents, set semantics, IN, contains, size, begins_with results, independence from attribute order – all value-level.",
 		Rules: []RuleDef{
 			{ID: "R1", Desc: "precedence table and its use by the Pratt parser (T-TABLE)", Run: c06R1},
@@ -34,6 +34,9 @@ func init() {
 			{ID: "R12", Desc: "the comparator functions receive the evaluated left operand of the parsed comparison on the left and the right one on the right (T-FLOW, eval-of)", Run: c06R12},
 			{ID: "R13", Desc: "begins_with and contains on strings/binaries are the library prefix/substring predicates with the operands in order (or the explicit length-guarded comparison) (T-TABLE)", Run: c06R13},
 			{ID: "R14", Desc: "an operand that is an empty map or list reaches the evaluator as a value of its type (= C10.R11): an attribute value with no type set is rejected by the evaluator and the request panics", Run: aliasRule("R14", c10R11, nil)},
+			{ID: "R15", Desc: "the value objects of the expression language carry their value and nothing else: a field added to one of them is a second representation that structural equality (reflect.DeepEqual), copying and conversion would have to agree on (T-FIELD closure)", Run: func(e *Engine) { stateModelClosed(e, "R15", func(k string) bool { return k == "lang.Number" || k == "lang.String" || k == "lang.Binary" || k == "lang.Boolean" || k == "lang.Null" || k == "lang.Map" || k == "lang.List" || k == "lang.StringSet" || k == "lang.NumberSet" || k == "lang.BinarySet" }) }},
+			{ID: "R16", Desc: "structural equality is symmetric: it answers through reflect.DeepEqual / bytes.Equal / comparisons only, never through a one-sided containment test", Run: c06R16},
+			{ID: "R17", Desc: "an attribute is looked up under its resolved name before the name is split as a document path – unconditionally (T-DOM)", Run: c06R17},
 		},
 	})
 }
@@ -1899,5 +1902,114 @@ func c06R13(e *Engine) {
 	}
 	if n < 4 {
 		e.fail("R13", "count:R13", "-", "only %d prefix/substring tests of the built-ins found (begins_with on S and B, contains on S and B expected)", n)
+	}
+}
+
+// c06R16: structural equality is symmetric. The function that decides "=" for documents and sets (two objects in, one
+// boolean out, built on reflect.DeepEqual) answers true only through constructs that treat both operands alike: DeepEqual
+// itself, bytes.Equal, a comparison of two projections. A one-sided test – a.Contains(b), a prefix, a subset – makes a
+// set equal to every subset of itself and a = b differ from b = a.
+func c06R16(e *Engine) {
+	n := 0
+	for _, fn := range e.funcs("lang") {
+		if fn.Parent() != nil || len(fn.Params) != 2 || fn.Signature.Results().Len() != 1 || !isBoolType(fn.Signature.Results().At(0).Type()) {
+			continue
+		}
+		if !isObjectIface(fn.Params[0].Type()) || !isObjectIface(fn.Params[1].Type()) {
+			continue
+		}
+		usesDeepEqual := false
+		instrs(fn, func(in ssa.Instruction) {
+			if c, ok := in.(*ssa.Call); ok && staticCalleeName(c) == "reflect.DeepEqual" {
+				usesDeepEqual = true
+			}
+		})
+		if !usesDeepEqual {
+			continue
+		}
+		n++
+		construct := e.fname(fn) + ":equality-is-symmetric"
+		bad := ""
+		for _, r := range returnsOf(fn) {
+			v := strip(retVals(r)[0])
+			if _, isK := constBool(v); isK {
+				continue
+			}
+			ok := false
+			switch x := v.(type) {
+			case *ssa.Call:
+				switch staticCalleeName(x) {
+				case "reflect.DeepEqual", "bytes.Equal":
+					ok = true
+				}
+			case *ssa.BinOp:
+				ok = x.Op == token.EQL || x.Op == token.NEQ
+			case *ssa.Phi:
+				ok = true // a conjunction/disjunction: its leaves are judged where they are returned from (none here)
+				for _, ed := range x.Edges {
+					if c, isC := strip(ed).(*ssa.Call); isC {
+						nm := staticCalleeName(c)
+						if nm != "reflect.DeepEqual" && nm != "bytes.Equal" {
+							ok = false
+						}
+					}
+				}
+			}
+			if !ok {
+				bad = e.ipos(r)
+			}
+		}
+		if bad != "" {
+			e.fail("R16", construct, bad, "equality of two objects is decided by a construct that does not treat its operands alike (a containment or other one-sided test): a set equals every subset of itself, and a = b can differ from b = a")
+		} else {
+			e.pass("R16", construct, e.pos(fn.Pos()), "every non-constant answer is reflect.DeepEqual / bytes.Equal / a comparison")
+		}
+	}
+	if n == 0 {
+		e.undecided("R16", "lang:structural-equality", "-", "the structural equality function (Object, Object) bool built on reflect.DeepEqual was not found")
+	}
+}
+
+// c06R17: an attribute is looked up under its (alias-resolved) name before the name is taken apart as a document path:
+// in the environment's read accessor the literal lookup in the store is unconditional – an attribute whose NAME contains a
+// dot or a bracket (reached through a name placeholder) exists.
+func c06R17(e *Engine) {
+	get := e.fn("lang", "Environment.Get")
+	storeF := e.field("lang", "Environment", "store")
+	if !e.anchor("R17", "lang.Environment.Get / store", get == nil || storeF == nil) {
+		return
+	}
+	var first *ssa.Lookup
+	instrs(get, func(in ssa.Instruction) {
+		lk, ok := in.(*ssa.Lookup)
+		if !ok || first != nil {
+			return
+		}
+		if f, _ := loadedField(lk.X); f == storeF {
+			first = lk
+		}
+	})
+	construct := "lang.Environment.Get:literal-lookup-first"
+	if first == nil {
+		e.fail("R17", construct, e.pos(get.Pos()), "no lookup of the store in the read accessor")
+		return
+	}
+	extra := ""
+	for _, cd := range condsAt(first.Block()) {
+		cd = normCond(cd)
+		// the alias lookup (comma-ok on Aliases) may decide which name is looked up; nothing else may decide WHETHER
+		if ex, ok := cd.V.(*ssa.Extract); ok {
+			if lk, isLk := ex.Tuple.(*ssa.Lookup); isLk {
+				if f, _ := loadedField(lk.X); f != nil && f.Name() == "Aliases" {
+					continue
+				}
+			}
+		}
+		extra = cd.V.String()
+	}
+	if extra != "" {
+		e.fail("R17", construct, e.ipos(first), "the literal lookup of the attribute name happens only when %s: a stored attribute whose name the test excludes (a dot, a bracket) is reported missing although it exists", extra)
+	} else {
+		e.pass("R17", construct, e.ipos(first), "the store is consulted under the resolved name before any path resolution, unconditionally")
 	}
 }
